@@ -40,7 +40,7 @@ TReport ==
   ELSE IF SetOf(Ev.env) # EnvOf(e) \/ Len(Ev.env) # 3 THEN Reject("C18-environment", <<Ev.name, Ev.env>>)
   ELSE IF Ev.fd3 # "socket" THEN Reject("C18-socket", <<Ev.name, Ev.fd3>>)
   ELSE IF Len(Ev.leaks) > 0 THEN Reject("C18-descriptor-leak", <<Ev.name, Ev.leaks>>)
-  ELSE IF e.behaviour \in {"healthy", "dielater"} /\ ~Ev.configured THEN Reject("C18-not-configured", <<Ev.name>>)
+  ELSE IF e.behaviour \in {"healthy", "dielater", "failsync"} /\ ~Ev.configured THEN Reject("C18-not-configured", <<Ev.name>>)
   ELSE IF Ev.configured /\ Ev.config # ConfigOf(e, s.dropins) THEN Reject("C18-configuration", <<Ev.name, Ev.config>>)
   ELSE Go("launched", s)
 
